@@ -4,20 +4,27 @@ Protocol (one observation per line; identical lines go to the Lean driver Operon
   cfg <gate> <breakerOn> <threshold> <timeoutUs> <cacheOn> <ttlUs> [<budget> [stub|real]]   -> ok
       (budget = initial ATP of the shared store, default ample; `real` = the built-in BioAgent executor/assessor
        of core/agent.py are kept (wrapped by a recorder) instead of being replaced by stubs)
-  run <pid|u<pid>> <zVerdict|exc> <yVerdict|exc>                        -> <result> ; <stats>
+  run <pid|u<pid>> <zVerdict|exc..> <yVerdict|exc..>                    -> <result> ; <stats>
+      agent exceptions: exc = RuntimeError("stub agent failure"); excK = KeyError() (no arguments); excR = an Exception
+      whose __repr__ raises (str() works); excS = an Exception whose __str__ raises ("unprintable": run() raises the
+      rendering error, ValueError); excB = a BaseException that is not an Exception (run() does not catch it: AgentAbort)
   adv <us> | resetcb | clearcache                                       -> - ; <stats>
   set gate|cache|ttl|breaker|thr|tmo <value> | set agents 0             -> - ; <stats>
       a public attribute of the LIVE loop is re-assigned (gate_logic, enable_cache, cache_ttl, enable_circuit_breaker,
       failure_threshold, recovery_timeout; `agents`: fresh stub objects, same names, to loop.executor / loop.assessor)
+  set onblock|onpermit none|ok|raise                                    -> - ; <stats>
+      loop.on_block / loop.on_permit re-assigned: None, a callable that returns, a callable that raises HookError.
+      When a callback raises, run() raises; the observation is then the result the callback was GIVEN followed by
+      `!HookError` (that result was produced, logged and cached - and on_permit was told the request passes).
   nest <p1> <z1> <y1> <w1> <d1> [<p2> <z2> <y2> <w2> <d2> ...]         -> <result1> | <result2> | ... ; <stats>
       overlapping requests on the CURRENT loop (up to 4 levels): request i is issued with prompt p_i; while its
       executor (w_i = e) / assessor (w_i = a) is being consulted - before that agent spends energy and answers
       z_i / y_i - request i+1 is issued on the same loop (re-entrantly; w_i = E / A: by a second thread while the
       agent waits for it) and then the clock advances by d_i us (a slow agent).  result_i = `-` when request i was
       never issued (an outer request was answered by the breaker or the cache, or its hosting agent was not reached).
-result = action success blocked tokenPid|none issuer|- cached        (or raise:<Class>)
+result = action success blocked tokenPid|none issuer|- cached [!HookError]       (or raise:<Class>)
 stats  = execCalls assessCalls spent state failures successes lastFailureUs|none lastSuccessUs|none trips
-         totalErrors cacheSize
+         totalErrors cacheSize totalRequests totalBlocked totalPermitted resultsLogLength onBlockCalls onPermitCalls
 
 The executor / assessor are stub objects assigned to `loop.executor` / `loop.assessor` (public attributes).  A stub
 spends energy exactly as the real BioAgent does: `store.consume(cost=10)` first, and when that is refused it
@@ -68,11 +75,61 @@ def verdict_text(tok: str) -> str:
     return unhexs(tok[2:]) if tok.startswith("x:") else tok
 
 
+class HookError(RuntimeError):
+    """raised by a scripted on_block / on_permit callback"""
+
+
+class AgentAbort(BaseException):
+    """a BaseException that is not an Exception (the family of KeyboardInterrupt / SystemExit / CancelledError)"""
+
+
+class Unprintable(Exception):
+    """an exception that cannot be rendered as text (e.g. a wrapped remote error with a broken __str__)"""
+
+    def __str__(self):
+        raise ValueError("cannot render")
+
+
+class Unreprable(Exception):
+    def __repr__(self):
+        raise ValueError("cannot repr")
+
+    def __str__(self):
+        return "unreprable stub agent failure"
+
+
+EXC_TOKENS = ("exc", "excK", "excS", "excR", "excB")     # what an agent may be scripted to raise
+EXC_FAMILY = ("exc", "excS", "excB")                     # what the recorder reports: an Exception that can be rendered,
+#                                                          an Exception whose str() raises, a BaseException
+
+
+def make_exception(tok):
+    return {"exc": lambda: RuntimeError("stub agent failure"), "excK": KeyError, "excS": Unprintable,
+            "excR": Unreprable, "excB": lambda: AgentAbort("stub agent aborted")}[tok]()
+
+
+def classify_exception(e) -> str:
+    """what kind of exception an agent actually raised, read off the exception object itself"""
+    if not isinstance(e, Exception):
+        return "excB"
+    try:
+        str(e)
+    except BaseException:  # noqa
+        return "excS"
+    return "exc"
+
+
 class _Exc:
-    pass
+    def __init__(self, tok="exc"):
+        self.tok = tok
 
 
 EXC = _Exc()
+
+
+def scripted(v):
+    """protocol token of an agent's behaviour -> what the stub is told to do"""
+    return _Exc(v) if v in EXC_TOKENS else verdict_text(v)
 
 
 _SOURCES = [None, "", "Gene_Y (stub assessor)", "Gene_Z (stub executor)", "Mallory", "Gene_Y (Risk)", "system"]
@@ -94,8 +151,8 @@ class Stub:
         self.k += 1
         if not self.store.consume(cost=COST):
             return self.types.ActionProtein("FAILURE", "Apoptosis: Insufficient ATP", 0.0)
-        if self.next is EXC:
-            raise RuntimeError("stub agent failure")
+        if isinstance(self.next, _Exc):
+            raise make_exception(self.next.tok)
         k = self.k
         return self.types.ActionProtein(self.next, _PAYLOADS[k % len(_PAYLOADS)], _CONFS[k % len(_CONFS)],
                                         source_agent=_SOURCES[(k * 3 + len(str(self.next))) % len(_SOURCES)],
@@ -120,10 +177,10 @@ class Recorder:
         done = self.hook(self.role, signal) if self.hook is not None else None
         try:
             out = self.agent.express(signal)
-        except Exception:
-            self.last = "exc"
+        except BaseException as e:  # noqa
+            self.last = classify_exception(e)
             if done is not None:
-                done("exc")
+                done(self.last)
             raise
         self.last = out.action_type
         if done is not None:
@@ -144,6 +201,40 @@ class Impl:
         self.loop = None
         self.hung = False
         self.nest_info = None
+        self.hook_calls = {"block": 0, "permit": 0}
+        self.frames = []          # one frame per run() in flight: the result a callback was given during it
+
+    # --- callbacks -----------------------------------------------------------------------------------------------
+    def make_hook(self, which, how):
+        if how == "none":
+            return None
+
+        def hook(result):
+            self.hook_calls[which] += 1
+            if self.frames:
+                self.frames[-1].append((which, self.show_result(result)))      # snapshot at call time
+            if how == "raise":
+                raise HookError(f"on_{which} callback failed")
+        return hook
+
+    def call_run(self, text) -> str:
+        """one run() on the current loop -> the reply part of the observation"""
+        frame = []
+        self.frames.append(frame)
+        try:
+            with (contextlib.nullcontext() if threading.current_thread() is not threading.main_thread()
+                  else contextlib.redirect_stdout(io.StringIO())):
+                r = self.loop.run(text)
+        except HookError:
+            given = frame[-1][1] if frame else "?"
+            return f"{given} !HookError"
+        except BaseException as e:  # noqa
+            if isinstance(e, (KeyboardInterrupt, SystemExit, GeneratorExit)):
+                raise
+            return f"raise:{type(e).__name__}"
+        finally:
+            self.frames.pop()
+        return self.show_result(r)
 
     # -------------------------------------------------------------------------------------------------
     def new_loop(self, gate="and", breaker=True, thr=5, tmo=60_000_000, cache=True, ttl=300_000_000,
@@ -172,6 +263,8 @@ class Impl:
         self.loop = loop
         self.sha = {}
         self.hung = False
+        self.hook_calls = {"block": 0, "permit": 0}
+        self.frames = []
 
     def _us(self, t):
         if t is None:
@@ -185,7 +278,9 @@ class Impl:
         st = lp.get_statistics()
         return " ".join([str(self.E.n), str(self.A.n), str(self.budget - self.store.atp), str(cb.state.value),
                          str(cb.failure_count), str(cb.success_count), self._us(cb.last_failure),
-                         self._us(cb.last_success), str(cb.trips_count), str(st["total_errors"]), str(st["cache_size"])])
+                         self._us(cb.last_success), str(cb.trips_count), str(st["total_errors"]), str(st["cache_size"]),
+                         str(st["total_requests"]), str(st["total_blocked"]), str(st["total_permitted"]),
+                         str(len(lp.get_results_log(10 ** 9))), str(self.hook_calls["block"]), str(self.hook_calls["permit"])])
 
     def show_result(self, r) -> str:
         tok = r.approval_token
@@ -215,9 +310,7 @@ class Impl:
         def issue(i):
             stack.append(i)
             try:
-                replies[i] = self.show_result(lp.run(texts[i]))
-            except Exception as e:  # noqa
-                replies[i] = f"raise:{type(e).__name__}"
+                replies[i] = self.call_run(texts[i])
             finally:
                 stack.pop()
 
@@ -237,7 +330,7 @@ class Impl:
                 self.clock.advance_us(int(d))
             if not self.real:
                 v = z if role == "z" else y
-                (self.E if role == "z" else self.A).agent.next = EXC if v == "exc" else verdict_text(v)
+                (self.E if role == "z" else self.A).agent.next = scripted(v)
 
             def done(verdict, i=i, role=role):
                 actual[i][0 if role == "z" else 1] = verdict
@@ -275,15 +368,10 @@ class Impl:
             if not t[1].startswith("u"):
                 self.sha[hashlib.sha256(text.encode()).hexdigest()[:16]] = t[1]
             if not self.real:     # (real agents decide for themselves; the line carries the verdicts they are expected to give)
-                self.E.agent.next = EXC if t[2] == "exc" else verdict_text(t[2])
-                self.A.agent.next = EXC if t[3] == "exc" else verdict_text(t[3])
+                self.E.agent.next = scripted(t[2])
+                self.A.agent.next = scripted(t[3])
             self.E.last = self.A.last = None
-            try:
-                with contextlib.redirect_stdout(io.StringIO()):
-                    r = lp.run(text)
-            except Exception as e:  # noqa
-                return f"raise:{type(e).__name__} ; {self.stats()}"
-            return self.show_result(r) + " ; " + self.stats()
+            return self.call_run(text) + " ; " + self.stats()
         if t[0] == "nest" and len(t) >= 6 and (len(t) - 1) % 5 == 0 and len(t) <= 21:
             return self.nest(t)
         if t[0] == "adv" and len(t) == 2:
@@ -303,6 +391,10 @@ class Impl:
                 lp.failure_threshold = int(v)
             elif k == "tmo":
                 lp.recovery_timeout = _dt.timedelta(microseconds=int(v))
+            elif k in ("onblock", "onpermit"):
+                if v not in ("none", "ok", "raise"):
+                    return "bad-op"
+                setattr(lp, "on_block" if k == "onblock" else "on_permit", self.make_hook(k[2:], v))
             elif k == "agents":
                 if not self.real:
                     e, a = Recorder(Stub(EXEC_NAME, self.store, self.T), "z"), Recorder(Stub(ASSESS_NAME, self.store, self.T), "y")
@@ -426,13 +518,17 @@ class Ob:
     """Parsed observation of one `run`/admin line."""
     __slots__ = ("raw", "raised", "action", "success", "blocked", "token", "issuer", "cached", "ecalls", "acalls",
                  "spent", "state", "failures", "successes", "last_failure", "last_success", "trips", "total_errors",
-                 "cache_size", "has_result")
+                 "cache_size", "has_result", "total_requests", "total_blocked", "total_permitted", "logged",
+                 "block_hook_calls", "permit_hook_calls")
 
     def __init__(self, raw: str):
         self.raw = raw
         res, _, st = raw.partition(" ; ")
         f = res.split()
         self.raised = f[0][6:] if f and f[0].startswith("raise:") else None
+        if len(f) == 7 and f[6].startswith("!"):      # a callback raised: the result it was given, then !<Class>
+            self.raised = f[6][1:]
+            f = f[:6]
         self.has_result = len(f) == 6
         if self.has_result:
             self.action, self.success, self.blocked = f[0], f[1] == "1", f[2] == "1"
@@ -446,6 +542,9 @@ class Ob:
         self.last_failure = None if s[6] == "none" else int(s[6])
         self.last_success = None if s[7] == "none" else int(s[7])
         self.trips, self.total_errors, self.cache_size = int(s[8]), int(s[9]), int(s[10])
+        more = [int(x) for x in s[11:17]] if len(s) >= 17 else [0] * 6
+        (self.total_requests, self.total_blocked, self.total_permitted, self.logged, self.block_hook_calls,
+         self.permit_hook_calls) = more
 
 
 def cfg_line(gate="and", breaker=True, thr=5, tmo=60_000_000, cache=True, ttl=300_000_000, budget=None, real=False) -> str:
